@@ -40,6 +40,21 @@ end
 
 abbrev Subst := List (String × Ty)
 
+mutual
+/-- does the type mention a variable that `bound` does not list -/
+def Ty.openVar (bound : List String) : Ty → Bool
+  | .gen n => !bound.contains n
+  | .list t => Ty.openVar bound t
+  | .result a b => Ty.openVar bound a || Ty.openVar bound b
+  | .tuple ts => Ty.openVars bound ts
+  | .fn ps r => Ty.openVars bound ps || Ty.openVar bound r
+  | .adt _ as => Ty.openVars bound as
+  | _ => false
+def Ty.openVars (bound : List String) : List Ty → Bool
+  | [] => false
+  | t :: ts => Ty.openVar bound t || Ty.openVars bound ts
+end
+
 def substTy (σ : Subst) : Ty → Ty
   | .gen n => (σ.lookup n).getD (.gen n)
   | .list t => .list (substTy σ t)
@@ -75,6 +90,75 @@ def matchTy : Nat → Ty → Ty → Subst → Option Subst
       | none => none
     | .adt n as, .adt m bs => if n == m then go as bs σ else none
     | a, b => if Ty.beq a b then some σ else none
+
+/-! Heuristics for finding the type of a `case` or a list whose members determine it only jointly
+(`Ok(1)` in one branch, `Error("e")` in another).  Nothing is proved about them: whatever type they
+propose is re-checked against every member. -/
+
+def isWild (n : String) : Bool := n.startsWith "?"
+
+mutual
+/-- rename the variables of a scheme that an instantiation leaves open to wildcards -/
+def Ty.wilden (bound : List String) : Ty → Ty
+  | .gen n => if bound.contains n then .gen n else .gen ("?" ++ n)
+  | .list t => .list (Ty.wilden bound t)
+  | .result a b => .result (Ty.wilden bound a) (Ty.wilden bound b)
+  | .tuple ts => .tuple (Ty.wildens bound ts)
+  | .fn ps r => .fn (Ty.wildens bound ps) (Ty.wilden bound r)
+  | .adt n as => .adt n (Ty.wildens bound as)
+  | t => t
+def Ty.wildens (bound : List String) : List Ty → List Ty
+  | [] => []
+  | t :: ts => Ty.wilden bound t :: Ty.wildens bound ts
+end
+
+mutual
+def Ty.hasWild : Ty → Bool
+  | .gen n => isWild n
+  | .list t => Ty.hasWild t
+  | .result a b => Ty.hasWild a || Ty.hasWild b
+  | .tuple ts => Ty.hasWilds ts
+  | .fn ps r => Ty.hasWilds ps || Ty.hasWild r
+  | .adt _ as => Ty.hasWilds as
+  | _ => false
+def Ty.hasWilds : List Ty → Bool
+  | [] => false
+  | t :: ts => Ty.hasWild t || Ty.hasWilds ts
+end
+
+/-- merge two partial types: a wildcard gives way to the other side -/
+def joinTy : Nat → Ty → Ty → Option Ty
+  | 0, _, _ => none
+  | fuel + 1, a, b =>
+    let rec go (as bs : List Ty) : Option (List Ty) :=
+      match as, bs with
+      | [], [] => some []
+      | x :: xs, y :: ys => match joinTy fuel x y, go xs ys with
+        | some z, some zs => some (z :: zs)
+        | _, _ => none
+      | _, _ => none
+    match a, b with
+    | .gen n, t => if isWild n then some t else (match t with
+        | .gen m => if isWild m || n == m then some (.gen n) else none
+        | _ => none)
+    | t, .gen m => if isWild m then some t else none
+    | .list x, .list y => (joinTy fuel x y).map .list
+    | .result x y, .result z w => match joinTy fuel x z, joinTy fuel y w with
+      | some p, some q => some (.result p q)
+      | _, _ => none
+    | .tuple xs, .tuple ys => (go xs ys).map .tuple
+    | .fn ps r, .fn qs s => match go ps qs, joinTy fuel r s with
+      | some zs, some z => some (.fn zs z)
+      | _, _ => none
+    | .adt n xs, .adt m ys => if n == m then (go xs ys).map (.adt n) else none
+    | x, y => if Ty.beq x y then some x else none
+
+def joinAll (ts : List Ty) : Option Ty :=
+  match ts with
+  | [] => none
+  | t :: rest => rest.foldl (fun acc u => match acc with
+      | some a => (match joinTy 64 a u with | some j => some j | none => some a)
+      | none => none) (some t)
 
 inductive Op where
   | intArith | floatArith | intCmp | floatCmp | eq | concat
@@ -298,8 +382,11 @@ def synth (D : Decls) : Nat → Expr → Option Ty
     | .float => some .float
     | .str => some .string
     | .var i => D.local? i
-    | .fnref n => (D.fn? n).map (·.ty)
-    | .ctor n => (ctorScheme D n).map (fun (_, fts, r) => if fts.isEmpty then r else .fn fts r)
+    -- a scheme with variables has no type of its own: its instantiation comes from the context (`check`)
+    | .fnref n => (D.fn? n).bind (fun sig => if Ty.openVar [] sig.ty then none else some sig.ty)
+    | .ctor n => (ctorScheme D n).bind (fun (_, fts, r) =>
+        let s := if fts.isEmpty then r else .fn fts r
+        if Ty.openVar [] s then none else some s)
     | .call f args =>
       match calleeScheme D fuel f with
       | some (ps, r, inst) =>
@@ -309,7 +396,9 @@ def synth (D : Decls) : Nat → Expr → Option Ty
           let σ := if inst then (es.zip ps).foldl (fun σ (a, p) => match synth D fuel a with
             | some ta => (matchTy 64 p ta σ).getD σ
             | none => σ) [] else []
-          if es.length == ps.length && (es.zip ps).all (fun (a, p) => check D fuel a (substTy σ p)) then some (substTy σ r) else none
+          -- an instantiation that leaves a variable of the result undetermined is not a type read off bottom-up
+          if es.length == ps.length && !(inst && Ty.openVar (σ.map (·.1)) r) &&
+              (es.zip ps).all (fun (a, p) => check D fuel a (substTy σ p)) then some (substTy σ r) else none
         | none => none
       | none => none
     | .binop .eq l r =>
@@ -326,8 +415,8 @@ def synth (D : Decls) : Nat → Expr → Option Ty
     | .index e i => match synth D fuel e with
       | some (.tuple ts) => ts[i]?
       | _ => none
-    | .list es => match es.findSome? (synth D fuel) with
-      | some t => if es.all (fun e => check D fuel e t) then some (.list t) else none
+    | .list es => match joinAll (es.filterMap (synthLoose D fuel)) with
+      | some t => if !Ty.hasWild t && es.all (fun e => check D fuel e t) then some (.list t) else none
       | none => none
     | .listTail es tail => match synth D fuel tail with
       | some (.list t) => if es.all (fun e => check D fuel e t) then some (.list t) else none
@@ -337,8 +426,8 @@ def synth (D : Decls) : Nat → Expr → Option Ty
     | .case subjects clauses =>
       match subjects.mapM (synth D fuel) with
       | some ts =>
-        match clauses.findSome? (fun c => synth D fuel c.2) with
-        | some t => if clausesOk D fuel clauses ts t then some t else none
+        match joinAll (clauses.filterMap (fun c => synthLoose D fuel c.2)) with
+        | some t => if !Ty.hasWild t && clausesOk D fuel clauses ts t then some t else none
         | none => none
       | none => none
     | .lambda params body =>
@@ -353,6 +442,28 @@ def synth (D : Decls) : Nat → Expr → Option Ty
     | .pipe l r => match synth D fuel r, synth D fuel l with
       | some (.fn [a] t), some a' => if Ty.beq a a' then some t else none
       | _, _ => none
+
+/-- like `synth`, but an instantiation may stay partial: open variables become wildcards -/
+def synthLoose (D : Decls) : Nat → Expr → Option Ty
+  | 0, _ => none
+  | fuel + 1, e =>
+    match synth D fuel e with
+    | some t => some t
+    | none =>
+      match e with
+      | .ctor n => (ctorScheme D n).map (fun (_, fts, r) => Ty.wilden [] (if fts.isEmpty then r else .fn fts r))
+      | .call f args =>
+        (match calleeScheme D fuel f with
+        | some (ps, r, true) =>
+          (match orderArgs (labelsOf D f) ps.length args with
+          | some es =>
+            let σ := (es.zip ps).foldl (fun σ (a, p) => match synth D fuel a with
+              | some ta => (matchTy 64 p ta σ).getD σ
+              | none => σ) []
+            some (substTy σ (Ty.wilden (σ.map (·.1)) r))
+          | none => none)
+        | _ => none)
+      | _ => none
 
 /-- parameter and result types of a callee, and whether its type is a scheme that may be
 instantiated (a top-level function or a constructor named directly) or a fixed type (any other
@@ -417,6 +528,7 @@ def check (D : Decls) : Nat → Expr → Ty → Bool
           es.length == ps.length && Ty.beq (substTy σ r) t && (es.zip ps).all (fun (a, p) => check D fuel a (substTy σ p))
         | none => false)
       | none => false)
+    | .tuple es, .tuple ts => es.length == ts.length && (es.zip ts).all (fun (e, u) => check D fuel e u)
     | .list es, .list u => es.all (fun e => check D fuel e u)
     | .listTail es tail, .list u => es.all (fun e => check D fuel e u) && check D fuel tail (.list u)
     | .case subjects clauses, t =>
@@ -447,22 +559,31 @@ def checkBlock (D : Decls) : Nat → List (Option Pat × Expr) → Ty → Bool
     | some u => (match p with | some q => checkPat D 64 q u | none => true) && checkBlock D fuel rest t
 end
 
-/-- a top-level function: its parameters are local binders, its scheme comes from the assignment -/
+/-- a top-level function: its parameters are local binders, its scheme comes from the assignment;
+the annotations the source gives (monomorphic ones) must be what the assignment says -/
 structure FnDef where
   name : String
   params : List Nat
+  paramAnn : List (Option Ty)
+  retAnn : Option Ty
   body : Expr
 deriving Repr, Inhabited
 
+def annOk : List Ty → List (Option Ty) → Bool
+  | _, [] => true
+  | [], _ :: _ => false
+  | t :: ts, a :: as => (match a with | some u => Ty.beq t u | none => true) && annOk ts as
+
 /-- the function is well typed under the assignment: the declared scheme is a function type over
-the parameters' types and the body has the result type.  The scheme's own variables are rigid
-inside the body (they are plain `gen` constants there). -/
+the parameters' types, agrees with the annotations, and the body has the result type.  The
+scheme's own variables are rigid inside the body (they are plain `gen` constants there). -/
 def checkFn (D : Decls) (fuel : Nat) (f : FnDef) : Bool :=
   match D.fn? f.name with
   | some sig =>
     (match sig.ty with
     | .fn ps r => (match f.params.mapM D.local? with
-      | some us => Ty.beqs us ps && check D fuel f.body r
+      | some us => Ty.beqs us ps && annOk ps f.paramAnn && (match f.retAnn with | some a => Ty.beq r a | none => true) &&
+          check D fuel f.body r
       | none => false)
     | _ => false)
   | none => false
@@ -470,6 +591,8 @@ def checkFn (D : Decls) (fuel : Nat) (f : FnDef) : Bool :=
 def FnOk (D : Decls) (f : FnDef) : Prop :=
   ∃ sig ps r, D.fn? f.name = some sig ∧ sig.ty = .fn ps r ∧
     f.params.length = ps.length ∧ (∀ (i : Nat) p t, f.params[i]? = some p → ps[i]? = some t → D.local? p = some t) ∧
+    (∀ (i : Nat) t a, ps[i]? = some t → f.paramAnn[i]? = some (some a) → t = a) ∧
+    (∀ a, f.retAnn = some a → r = a) ∧
     HasType D f.body r
 
 end Glas.TySpec
